@@ -46,7 +46,10 @@ def _foreign(rng_seed, kind, D=None):
             np.random.rand(r.randint(1, 50)); np.random.randn(3); np.random.randint(0, 10, 4); np.random.permutation(5)
     elif kind in ("run", "construct"):
         sp = gen.make_spec(r, D=r.choice([1, 2, 4]), geom=r.choice(["box", "logbox", "unbounded"]), mode=r.choice(["det", "decl"]), cons=None)
-        sp["options"] = {"n_search": 32, "max_fun_evals": 30 if sp["mode"] == "det" else 50}
+        # other search settings than the instance under test (population sizes, ES iterations, step parameters): a run with them must leave
+        # nothing behind that a later instance picks up
+        sp["options"] = {"n_search": r.choice([16, 48, 64, 128]), "n_search_iter": r.choice([1, 2, 3]), "max_fun_evals": 30 if sp["mode"] == "det" else 50,
+                         "es_start": r.choice([0.25, 0.1, 0.5]), "poll_mesh_multiplier": r.choice([2.0, 4.0]), "search_n_try": r.choice([1, 2, 3])}
         if r.random() < 0.5:
             sp["options"].pop("random_seed", None)
             sp["seed"] = None
